@@ -73,4 +73,50 @@ def DlShared.step (s : DlShared) : DEv → DlShared
 
 def DlShared.run (s : DlShared) (evs : List DEv) : DlShared := evs.foldl DlShared.step s
 
+/-! ### what a callback does, and where the recovery sits
+
+`runTasks` (the code that exists): `go func() { for i := range tasks { threading.RunSafe(func() { tw.execute(…) }) } }()` —
+the recover is INSIDE the loop (per task).  Seeded change C12-9 put one GoSafe AROUND the loop.
+A callback returns, panics (error value or any other value: `recover` does not distinguish), or calls
+runtime.Goexit (what testing.T.FailNow does): Goexit runs the deferred recover, which sees no panic, and then ends
+the goroutine — the goroutine of the whole tick. -/
+
+inductive Outcome where
+  | ret | panic | goexit
+  deriving Repr, DecidableEq
+
+inductive Scope where
+  | perTask       -- recover inside the loop
+  | aroundLoop    -- one recover around the whole loop
+  deriving Repr, DecidableEq
+
+/-- does the goroutine go on with the next task of its batch? -/
+def survives : Scope → Outcome → Bool
+  | _, .ret => true
+  | .perTask, .panic => true
+  | _, _ => false
+
+/-- what ONE goroutine hands to the callbacks, of its own batch: everything up to and including the first task after
+which it does not go on. -/
+def deliveredOf (keep : Pair → Bool) : List Pair → List Pair
+  | [] => []
+  | x :: xs => if keep x then x :: deliveredOf keep xs else [x]
+
+/-- goroutine `g` takes its next task; if it does not survive it, its remaining tasks are dropped. -/
+def takeAtK (keep : Pair → Bool) : Nat → List (List Pair) → Option (Pair × List (List Pair))
+  | _, [] => none
+  | 0, [] :: _ => none
+  | 0, (x :: xs) :: rest => some (x, (if keep x then xs else []) :: rest)
+  | i + 1, g :: rest => (takeAtK keep i rest).map fun r => (r.1, g :: r.2)
+
+/-- the delivery with outcomes: `oc` says what the callback does with each pair. -/
+def Dl.stepO (sc : Scope) (oc : Pair → Outcome) (s : Dl) : DEv → Dl
+  | .spawn b => { s with gs := s.gs ++ [b] }
+  | .run g =>
+    match takeAtK (fun p => survives sc (oc p)) g s.gs with
+    | some r => { gs := r.2, out := s.out ++ [r.1] }
+    | none => s
+
+def Dl.runO (sc : Scope) (oc : Pair → Outcome) (s : Dl) (evs : List DEv) : Dl := evs.foldl (Dl.stepO sc oc) s
+
 end GoZero.C12
